@@ -8,7 +8,7 @@ import re
 from ..core import Ctx, RuleResult, finding, short
 from ..model import AnalysisError, norm
 from ..mutants import Mut
-from ..rules import dim
+from ..rules import dim, noop, posbound
 from ..rules.geom import LOOP_INDEX, ClassGeom
 from ..rules.util import lin_str, linear
 from ..tables import C09_DIM_EXCEPTIONS, C09_SIZE_EXCEPTIONS
@@ -20,7 +20,8 @@ EXPLANATION = (
     "one render() hands to the same child under that valuation (branch tests decided by the valuation, definitions followed on the CFG, helper methods inlined, arithmetic canonicalised); "
     "Pile and Columns must hand child k the k-th element of the shared size helper's third result, with the same index as the child receiver; (3) offset inverse pairing: the translation "
     "subtracted from (col,row) before mouse_event / move_cursor_to_coords are forwarded equals the one added to the child's cursor in get_cursor_coords, per child and axis; "
-    "(4) every get_cursor_coords implementation tests the child's answer against None before unpacking it; (5) every GridFlow entry point rebuilds the memoised display widget for "
+    "(4) every get_cursor_coords implementation tests the child's answer against None before unpacking it; (6) NOOP: no geometry update adds a variable that was just reset to 0 (offset bookkeeping statements in the wrong order - e.g. ListBox's offset_rows, from which "
+    "get_cursor_coords answers); (7) POSBOUND: hit-test bounds compare a coordinate with an extent half-open (`row >= maxrow - bottom`, never `>`); (5) every GridFlow entry point rebuilds the memoised display widget for "
     "the size it was asked about before delegating to it."
 )
 NOT_DECIDED = (
@@ -384,6 +385,8 @@ def run(ctx: Ctx):
         rule_offsets(ctx),
         rule_none_guard(ctx),
         rule_display_refresh(ctx),
+        noop.run_noop(p, "C09.6", GEOM_MODULES, floor=30),
+        posbound.run_posbound(p, "C09.7", GEOM_MODULES, floor=6),
     ]
 
 
@@ -411,6 +414,8 @@ MUTANTS = [
     Mut("boxadapter-cursor-size", _BOX, "BoxAdapter.get_cursor_coords", "return self._original_widget.get_cursor_coords((maxcol, self.height))", "return self._original_widget.get_cursor_coords((maxcol,))", "GEOM|widget.box_adapter.BoxAdapter.get_cursor_coords"),
     Mut("padding-cursor-none-unguarded", _PAD, "Padding.get_cursor_coords", "if (coords := self._original_widget.get_cursor_coords(maxvals)) is not None:\n            x, y = coords\n            return x + left, y\n\n        return None", "coords = self._original_widget.get_cursor_coords(maxvals)\n        x, y = coords\n        return x + left, y", "GUARD|widget.padding.Padding.get_cursor_coords"),
     Mut("gridflow-cursor-stale-layout", "urwid/widget/grid_flow.py", "GridFlow.get_cursor_coords", "        self.get_display_widget(size)\n        return super().get_cursor_coords(size)", "        return super().get_cursor_coords(size)", "MEMO|widget.grid_flow.GridFlow.get_cursor_coords"),
+    Mut("listbox-offset-update-after-reset", "urwid/widget/listbox.py", "ListBox.calculate_visible", "                offset_rows += fill_lines\n                fill_lines = 0", "                fill_lines = 0\n                offset_rows += fill_lines", "NOOP|widget.listbox.ListBox.calculate_visible"),
+    Mut("filler-move-closed-bound", _FIL, "Filler.move_cursor_to_coords", "if row < top or row >= maxrow - bottom:", "if row < top or row > maxrow - bottom:", "POSBOUND|widget.filler.Filler.move_cursor_to_coords"),
     Mut("twin-filler-regrouped", _FIL, "Filler.mouse_event", "return self._original_widget.mouse_event((maxcol, maxrow - top - bottom), event", "return self._original_widget.mouse_event((maxcol, maxrow - (top + bottom)), event", twin=True),
     Mut("twin-filler-local-height", _FIL, "Filler.keypress", "return self._original_widget.keypress((maxcol, maxrow - top - bottom), key)", "inner_rows = maxrow - bottom - top\n        return self._original_widget.keypress((maxcol, inner_rows), key)", twin=True),
     Mut("twin-frame-cursor-order", _FRM, "Frame.get_cursor_coords", "coords = self.body.get_cursor_coords((maxcol, maxrow - hrows - frows))", "coords = self.body.get_cursor_coords((maxcol, maxrow - frows - hrows))", twin=True),
